@@ -81,10 +81,10 @@ def demes_sfs(dadi, gd, sd, st, ns, pts, **kw):
     except ValueError as e:
         if LIMIT_PAT.search(str(e)): raise Limit(str(e))
         raise
-    return np.asarray(fs.data, dtype=float)
+    return np.asarray(np.ma.filled(fs, 0.0), dtype=float)
 
 def prog_sfs(dadi, ops, ns, pts, theta=1.0):
-    return np.asarray(S.program_sfs(dadi, ops, pts, list(ns), theta=theta).data, dtype=float)
+    return np.asarray(np.ma.filled(S.program_sfs(dadi, ops, pts, list(ns), theta=theta), 0.0), dtype=float)
 
 def prog_cost(ops, pts, tf=1e-3):
     """rough wall-clock estimate (s) of a program"""
@@ -110,23 +110,38 @@ class TF:
     def __exit__(self, *a):
         self.dadi.Integration.timescale_factor = self.old
 
-def agree(dadi, fa, fb, budget_ok=True):
-    """(verdict, errors): 'tight' | 'converging' | 'different' | 'unresolved'.  fa, fb: thunks returning arrays."""
-    e1 = rel(fa(), fb())
+def agree(dadi, fa, fb, pts, cost, budget, ndim):
+    """(verdict, errors).  fa, fb: functions of the number of grid points returning arrays (corners zeroed).
+    'tight' (<= 1e-9) | 'converging' (the difference shrinks when the time step / the grid is refined: discretisation) |
+    'different' (it does not) | 'unresolved' (refinement too expensive)."""
+    e1 = rel(fa(pts), fb(pts))
     if e1 <= TIGHT: return 'tight', [e1]
-    if not budget_ok: return 'unresolved', [e1]
+    spent = 0.0
+    if cost * 4 > budget: return 'unresolved', [e1]
     with TF(dadi, 4):
-        e2 = rel(fa(), fb())
+        e2 = rel(fa(pts), fb(pts))
+    spent += 4 * cost
     if e2 <= TIGHT or e2 <= 0.35 * e1: return 'converging', [e1, e2]
-    with TF(dadi, 16):
-        e3 = rel(fa(), fb())
-    if e3 <= TIGHT or e3 <= 0.5 * e2 or e3 <= 0.2 * e1: return 'converging', [e1, e2, e3]
-    return 'different', [e1, e2, e3]
+    e3 = None
+    if spent + 16 * cost <= budget:
+        with TF(dadi, 16):
+            e3 = rel(fa(pts), fb(pts))
+        spent += 16 * cost
+        if e3 <= TIGHT or e3 <= 0.5 * e2 or e3 <= 0.2 * e1: return 'converging', [e1, e2, e3]
+    # event order at one instant / step partition can also leave a grid-discretisation difference: refine the grid as well
+    gcost = 4 * cost * (2 ** ndim) * 1.3
+    if spent + gcost > budget: return 'unresolved', [e1, e2, e3]
+    with TF(dadi, 4):
+        e4 = rel(fa(2 * pts), fb(2 * pts))
+    if e4 <= TIGHT or e4 <= 0.4 * e1: return 'converging', [e1, e2, e3, e4]
+    return 'different', [e1, e2, e3, e4]
 
-def check_pair(chk, dadi, key, what, inp, fa, fb, cost=0.0, budget=30.0):
-    """the two spectra must agree; impl side is `fa`.  Returns verdict."""
+REFINE_BUDGET = [20.0]
+
+def check_pair(chk, dadi, key, what, inp, fa, fb, pts, ndim, cost=0.0):
+    """the two spectra must agree; the implementation side is `fa`.  Returns the verdict."""
     try:
-        v, errs = agree(dadi, fa, fb, budget_ok=(cost * 21 <= budget))
+        v, errs = agree(dadi, fa, fb, pts, cost, REFINE_BUDGET[0], ndim)
     except Limit as e:
         chk.stat('skipped:dadi-limit'); return 'limit'
     except Exception as e:
@@ -136,8 +151,8 @@ def check_pair(chk, dadi, key, what, inp, fa, fb, cost=0.0, budget=30.0):
         return 'raises'
     chk.stat('agree:%s:%s' % (key.split(':')[0], v))
     if v == 'different':
-        chk.fail(key + ':mismatch', '%s: spectra differ by %.2e relative at the default time step, %.2e at 1/4 and %.2e at 1/16 of it (does not converge: not a discretisation effect)'
-                 % (what, errs[0], errs[1], errs[2]), inp)
+        chk.fail(key + ':mismatch', '%s: spectra differ by %.2e relative at the default time step and grid; %s (does not converge: not a discretisation effect)'
+                 % (what, errs[0], ', '.join('%s: %s' % (n, '%.2e' % e if e is not None else 'n/a') for n, e in zip(['dt/4', 'dt/16', '2x grid and dt/4'], errs[1:]))), inp)
     return v
 
 # ------------------------------------------------------------------------------------------------- K: conversion
@@ -553,17 +568,84 @@ def k_export(chk, ctx, rng, n):
                     (chk.k_ok('export') if hit else chk.k_bad('export', dict(inp, source=src, dest=dest), [str(m) for m in g.migrations][:6], mr, 'no migration with the scaled rate'))
 
 # ------------------------------------------------------------------------------------------------- L3
-def history_input(h, **extra):
-    d = dict(graph=enc(h.graph_dict()), Ne=h.Ne, samples=enc(h.samples), describe=enc(h.describe()))
-    d.update(extra)
-    return d
+def scale_graph(gd, c=1.0, tmul=1.0, unit=None, generation_time=None):
+    """the same history with sizes and times multiplied by c and rates divided by c; times further multiplied by tmul and
+    declared in `unit` with `generation_time` (years = generations x generation_time)"""
+    g = copy.deepcopy(gd)
+    def T(t): return t if t == INF else t * c * tmul
+    for d in g['demes']:
+        if 'start_time' in d: d['start_time'] = T(d['start_time'])
+        for e in d['epochs']:
+            e['end_time'] = T(e['end_time']); e['start_size'] *= c; e['end_size'] *= c
+    for m in g.get('migrations', []):
+        m['rate'] /= c; m['start_time'] = T(m['start_time']); m['end_time'] = T(m['end_time'])
+    for p in g.get('pulses', []):
+        p['time'] = T(p['time'])
+    if unit is not None:
+        g['time_units'] = unit; g['generation_time'] = generation_time
+    return g
 
-def pick_pts(ops, quick=True):
+def eval_case(chk, dadi, inp_json):
+    """evaluate one L3 case from its JSON description (used by the search and by replay)"""
+    inp = dec(inp_json)
+    kind = inp['kind']; key = inp['key']; pts = inp['pts']; ns = inp['ns']; cost = inp.get('cost', 0.0)
+    if kind == 'export':
+        return run_export_case(chk, dadi, key, inp_json, inp['ops'], ns, pts, inp['Nref'], inp['generation_time'], cost)
+    gd = inp['graph']; samples = [tuple(x) for x in inp['samples']]
+    sd = [x for x, _ in samples]; st = [t for _, t in samples]
+    ndim = inp.get('ndim', len(sd))
+    base = lambda p: demes_sfs(dadi, gd, sd, st, ns, p)
+    if kind == 'graph':
+        ops = inp['ops']
+        what = 'demes graph (samples %s) vs the hand-written dadi program of the same history (%d axes)' % (samples, ndim)
+        return check_pair(chk, dadi, key, what, inp_json, base, lambda p: prog_sfs(dadi, ops, ns, p), pts, ndim, cost)
+    if kind == 'scale':
+        c = inp['c']; g2 = scale_graph(gd, c)
+        return check_pair(chk, dadi, key, 'graph with sizes and times multiplied by %g and rates divided by it' % c, inp_json,
+                          lambda p: demes_sfs(dadi, g2, sd, [t * c for t in st], ns, p), base, pts, ndim, cost)
+    if kind == 'units':
+        gt = inp['generation_time']; g3 = scale_graph(gd, 1.0, gt, inp['unit'], gt)
+        return check_pair(chk, dadi, key, 'graph in %s with generation_time %g' % (inp['unit'], gt), inp_json,
+                          lambda p: demes_sfs(dadi, g3, sd, [t * gt for t in st], ns, p), base, pts, ndim, cost)
+    if kind == 'order':
+        perm = inp['perm']
+        return check_pair(chk, dadi, key, 'sampled demes listed in the order %s' % perm, inp_json,
+                          lambda p: demes_sfs(dadi, gd, [sd[i] for i in perm], [st[i] for i in perm], [ns[i] for i in perm], p),
+                          lambda p: np.transpose(base(p), perm), pts, ndim, cost)
+    if kind == 'Ne':
+        f = inp['factor']
+        return check_pair(chk, dadi, key, 'Ne = %g x root size with theta scaled by the same factor (same mutation rate per generation)' % f, inp_json,
+                          lambda p: demes_sfs(dadi, gd, sd, st, ns, p, Ne=inp['Ne'] * f, theta=f), base, pts, ndim, cost)
+    raise common.Infra('unknown case kind %r' % kind)
+
+def run_export_case(chk, dadi, key, inp_json, ops, ns, pts, Nref, gt, cost):
+    nu0 = float(ops[0].get('nu', 1.0))
+    ndim = max(len(o['nu']) for o in ops if o['op'] == 'integrate')
+    def exported(p):
+        """run the program, export it, return the exported graph and the names of the final demes"""
+        S.run_program(dadi, ops, p)
+        g = dadi.Demes.output(Nref=Nref, generation_time=gt)
+        return list(dadi.Demes.cache[-1].deme_ids), g.asdict()
+    def fa(p):
+        ids, gd = exported(p)
+        # default reference size at import = exported root size nu0*Nref: theta = 4 Ne mu is nu0 times the program's
+        return demes_sfs(dadi, gd, ids, [0.0] * len(ids), ns, p) * nu0
+    what = 'dadi program (%s) exported with Demes.output(Nref=%g, generation_time=%r) and re-imported' % (' '.join(o['op'] for o in ops), Nref, gt)
+    v = check_pair(chk, dadi, key, what, inp_json, fa, lambda p: prog_sfs(dadi, ops, ns, p), pts, ndim, cost)
+    if v in ('tight', 'converging') and nu0 != 1.0:
+        chk.l3(('export-Ne', nu0))
+        def fb(p):
+            ids, gd = exported(p)
+            return demes_sfs(dadi, gd, ids, [0.0] * len(ids), ns, p, Ne=Nref)
+        check_pair(chk, dadi, 'Ne:root-size:export', what + ', re-imported with Ne = Nref (root relative size %g)' % nu0, inp_json, fb,
+                   lambda p: prog_sfs(dadi, ops, ns, p), pts, ndim, cost)
+    return v
+
+def pick_pts(ops):
     dmax = max([len(o['nu']) for o in ops if o['op'] == 'integrate'] + [1])
     return {1: 16, 2: 14, 3: 10, 4: 8, 5: 7}[dmax], dmax
 
 def graph_features(h, ops):
-    dmax = max([len(o['nu']) for o in ops if o['op'] == 'integrate'] + [1])
     fz5 = any(o['op'] == 'integrate' and len(o['nu']) == 5 and o['frozen'][3] != o['frozen'][4] for o in ops)
     anc = any(t > 0 for _, t in h.samples)
     allanc = all(t > 0 for _, t in h.samples)
@@ -575,32 +657,29 @@ def graph_features(h, ops):
         youngest = [n for n, t in h.samples if t == ts]
         if any(set(d['ancestors']) & set(youngest) and d['start_time'] > ts for d in h.demes):
             extra += ':descendants'
-    return dmax, fz5, anc, allanc, extra
+    return fz5, anc, allanc, extra
 
 def l3_graph_vs_program(chk, ctx, rng, n, want_ancient, budget):
     """a spectrum computed from the graph equals the spectrum of the hand-written dadi program of the same history"""
     dadi = ctx['dadi']
     done = 0; tries = 0
-    while done < n and tries < 6 * n:
+    while done < n and tries < 8 * n:
         tries += 1
         force = None
         if want_ancient and done % 4 == 1: force = ['split', 'split', 'branch']      # reach 4-5 axes with a frozen branch
-        h = S.History(rng, want_ancient=want_ancient, force=force)
+        h = S.History(rng, want_ancient=want_ancient, force=force, small_Ne=want_ancient)
         if want_ancient and not any(t > 0 for _, t in h.samples): continue
         ops, axes = h.program(frozen_nu=1.0 / h.Ne)
         pts, dmax = pick_pts(ops)
         cost = prog_cost(ops, pts)
         if cost > budget: chk.stat('skipped:too-slow'); continue
-        sd = [x for x, _ in h.samples]; st = [t for _, t in h.samples]
-        ns = [int(rng.integers(2, 5)) for _ in sd]
-        gd = h.graph_dict()
-        dmax, fz5, anc, allanc, extra = graph_features(h, ops)
+        ns = [int(rng.integers(2, 5)) for _ in h.samples]
+        fz5, anc, allanc, extra = graph_features(h, ops)
         fam = 'ancient' if anc else 'graph'
         key = fam + (':frozen5' if fz5 else '') + (':only-ancient' if allanc else '') + extra
-        inp = history_input(h, kind='graph_vs_program', ops=enc(ops), ns=ns, pts=pts, key=key)
+        inp = dict(kind='graph', key=key, graph=h.graph_dict(), samples=h.samples, ops=ops, ns=ns, pts=pts, ndim=dmax, cost=2 * cost, describe=h.describe())
         chk.l3((fam, tuple(h.describe()['events']), dmax, tuple(h.describe()['fns'])))
-        v = check_pair(chk, dadi, key, 'demes graph vs hand-written program (%d axes%s)' % (dmax, ', ancient samples as frozen branches' if anc else ''), inp,
-                       lambda: demes_sfs(dadi, gd, sd, st, ns, pts), lambda: prog_sfs(dadi, ops, ns, pts), cost=2 * cost)
+        v = eval_case(chk, dadi, enc(inp))
         if v == 'limit': continue
         done += 1
         chk.stat('%s:axes=%d' % (fam, dmax))
@@ -615,9 +694,9 @@ def l3_metamorphic(chk, ctx, rng, n, budget):
     """units, scale, explicit reference size, order of the sampled demes"""
     dadi = ctx['dadi']
     done = 0; tries = 0
-    while done < n and tries < 6 * n:
+    while done < n and tries < 8 * n:
         tries += 1
-        h = S.History(rng, want_ancient=(rng.random() < 0.25), max_live=4)
+        h = S.History(rng, want_ancient=(rng.random() < 0.25), max_live=4, small_Ne=True)
         ops, _ = h.program(frozen_nu=1.0 / h.Ne)
         pts, dmax = pick_pts(ops)
         cost = prog_cost(ops, pts)
@@ -626,40 +705,25 @@ def l3_metamorphic(chk, ctx, rng, n, budget):
         ns = [int(rng.integers(2, 5)) for _ in sd]
         gd = h.graph_dict()
         try:
-            base = demes_sfs(dadi, gd, sd, st, ns, pts)
-        except Limit:
-            continue
-        except Exception as e:
-            # the graph itself cannot be computed: reported by the graph-vs-program family; nothing to relate here
-            chk.stat('metamorphic:base-raises'); continue
+            demes_sfs(dadi, gd, sd, st, ns, pts)
+        except Exception:
+            chk.stat('metamorphic:base-raises'); continue       # reported by the graph-vs-program family; nothing to relate here
         done += 1
         anc = any(t > 0 for t in st)
-        basef = lambda: demes_sfs(dadi, gd, sd, st, ns, pts)
-        # (1) scale: sizes and times multiplied by c, rates divided
+        common_ = dict(graph=gd, samples=h.samples, ns=ns, pts=pts, ndim=dmax, cost=2 * cost, describe=h.describe(), Ne=h.Ne)
         c = float(rng.choice([0.5, 3.0, 10.0, 0.37, 1000.0]))
-        g2 = h.graph_dict(scale=c); st2 = [t * c for t in st]
         chk.l3(('scale', c, dmax, anc))
-        check_pair(chk, dadi, 'scale', 'graph with sizes and times multiplied by %g and rates divided by it' % c,
-                   history_input(h, kind='scale', c=c, ns=ns, pts=pts), lambda: demes_sfs(dadi, g2, sd, st2, ns, pts), basef, cost=2 * cost)
-        # (2) time units
-        gt = float(rng.choice([25.0, 29.0, 0.5, 1.0]))
-        unit = 'years' if rng.random() < 0.8 else 'centuries'
-        g3 = h.graph_dict(time_units=unit, generation_time=gt, tmul=gt); st3 = [t * gt for t in st]
+        eval_case(chk, dadi, enc(dict(common_, kind='scale', key='scale', c=c)))
+        gt = float(rng.choice([25.0, 29.0, 0.5, 1.0])); unit = 'years' if rng.random() < 0.8 else 'centuries'
         chk.l3(('units', unit, gt, dmax, anc))
-        check_pair(chk, dadi, 'units', 'graph in %s with generation_time %g' % (unit, gt),
-                   history_input(h, kind='units', unit=unit, generation_time=gt, ns=ns, pts=pts), lambda: demes_sfs(dadi, g3, sd, st3, ns, pts), basef, cost=2 * cost)
-        # (3) order of the sampled demes
+        eval_case(chk, dadi, enc(dict(common_, kind='units', key='units', unit=unit, generation_time=gt)))
         if len(sd) > 1:
             perm = rng.permutation(len(sd)).tolist()
             chk.l3(('order', tuple(perm), dmax, anc))
-            check_pair(chk, dadi, 'order', 'sampled demes listed in the order %s' % perm, history_input(h, kind='order', perm=perm, ns=ns, pts=pts),
-                       lambda: demes_sfs(dadi, gd, [sd[i] for i in perm], [st[i] for i in perm], [ns[i] for i in perm], pts),
-                       lambda: np.transpose(basef(), perm), cost=2 * cost)
-        # (4) explicit other reference size: theta = 4 Ne mu scales with it
+            eval_case(chk, dadi, enc(dict(common_, kind='order', key='order', perm=perm)))
         f = float(rng.choice([0.5, 2.0, 1.7, 0.31]))
         chk.l3(('Ne', f, dmax, anc))
-        check_pair(chk, dadi, 'Ne:root-size', 'Ne = %g x root size with theta scaled by the same factor (same mutation rate per generation)' % f,
-                   history_input(h, kind='Ne', factor=f, ns=ns, pts=pts), lambda: demes_sfs(dadi, gd, sd, st, ns, pts, Ne=h.Ne * f, theta=f), basef, cost=2 * cost)
+        eval_case(chk, dadi, enc(dict(common_, kind='Ne', key='Ne:root-size', factor=f)))
         chk.stat('metamorphic:histories')
 
 def export_features(ops):
@@ -678,7 +742,7 @@ def l3_export(chk, ctx, rng, n, budget):
     """a random neutral dadi program, exported with Demes.output and re-imported, gives the program's spectrum"""
     dadi = ctx['dadi']
     done = 0; tries = 0
-    while done < n and tries < 6 * n:
+    while done < n and tries < 8 * n:
         tries += 1
         ops, d = S.random_program(rng, max_pops=int(rng.choice([2, 3, 4, 5, 5])), p_reorder=0.3)
         pts, dmax = pick_pts(ops)
@@ -689,39 +753,12 @@ def l3_export(chk, ctx, rng, n, budget):
         Nref = float(rng.choice([100.0, 1000.0, 7300.0, 12345.0])); gt = None if rng.random() < 0.4 else float(rng.choice([1.0, 25.0, 29.5]))
         feats = export_features(ops)
         key = 'export' + ''.join(':' + x for x in feats)
-        inp = dict(kind='export', ops=enc(ops), ns=ns, pts=pts, Nref=Nref, generation_time=gt, key=key)
+        inp = dict(kind='export', key=key, ops=ops, ns=ns, pts=pts, Nref=Nref, generation_time=gt, cost=2 * cost)
         chk.l3(('export', tuple(o['op'] for o in ops), dmax))
-        run_export_case(chk, dadi, key, inp, ops, ns, pts, Nref, gt, cost)
+        eval_case(chk, dadi, enc(inp))
         chk.stat('export:pops=%d' % dmax)
         for x in feats: chk.stat('export:' + x)
         for o in ops: chk.stat('export-op:' + o['op'])
-
-def run_export_case(chk, dadi, key, inp, ops, ns, pts, Nref, gt, cost):
-    nu0 = float(ops[0].get('nu', 1.0))
-    state = {}
-    def exported():
-        """run the program, export, re-import with the exported reference size"""
-        S.run_program(dadi, ops, pts)
-        g = dadi.Demes.output(Nref=Nref, generation_time=gt)
-        ids = list(dadi.Demes.cache[-1].deme_ids)
-        state['graph'] = g
-        gd = g.asdict()
-        return ids, gd
-    def fa():
-        ids, gd = exported()
-        # same mutation rate per generation: theta refers to the reference size used at import (root size = nu0 * Nref)
-        return demes_sfs(dadi, gd, ids, [0.0] * len(ids), ns, pts) * nu0
-    what = 'dadi program (%s) exported with Demes.output(Nref=%g, generation_time=%r) and re-imported' % (' '.join(o['op'] for o in ops), Nref, gt)
-    v = check_pair(chk, dadi, key, what, inp, fa, lambda: prog_sfs(dadi, ops, ns, pts), cost=2 * cost)
-    if v in ('tight', 'converging') and nu0 != 1.0:
-        # the exported reference size itself: Ne = Nref must give the program's spectrum as it stands
-        chk.l3(('export-Ne', nu0))
-        def fb():
-            ids, gd = exported()
-            return demes_sfs(dadi, gd, ids, [0.0] * len(ids), ns, pts, Ne=Nref)
-        check_pair(chk, dadi, 'export:Ne=Nref:root-size', what + ' with Ne = Nref (root relative size %g)' % nu0, dict(inp, with_Ne=True), fb,
-                   lambda: prog_sfs(dadi, ops, ns, pts), cost=2 * cost)
-    return v
 
 # ------------------------------------------------------------------------------------------------- fixed edge cases
 def edge_graph(kind):
@@ -791,25 +828,26 @@ EDGE_EXPORT['pulse5D'] = EDGE_EXPORT['pulse4D-into-4'][:8] + [
     dict(op='pulse', dest=1, props=[0.15, 0.0, 0.0, 0.1, 0.0]),
     dict(op='integrate', T=0.02, nu=[('c', 1.0), ('c', 0.7), ('c', 1.4), ('c', 0.5), ('c', 0.9)], M=[[0] * 5] * 5, frozen=[False] * 5)]
 
-def l3_edges(chk, ctx):
-    dadi = ctx['dadi']
+def edge_cases():
+    out = []
     for kind in ('slice-linear', 'slice-exponential', 'only-ancient-descendants', 'five-demes-frozen'):
         gd, samples, ops = edge_graph(kind)
-        sd = [x for x, _ in samples]; st = [t for _, t in samples]; ns = [3] * len(sd)
-        pts = 10 if kind != 'five-demes-frozen' else 6
-        key = {'slice-linear': 'ancient:only-ancient:slice-linear', 'slice-exponential': 'ancient:only-ancient:slice-exponential',
+        key = {'slice-linear': 'ancient:only-ancient:slice-linear', 'slice-exponential': 'ancient:only-ancient',
                'only-ancient-descendants': 'ancient:only-ancient:descendants', 'five-demes-frozen': 'ancient:frozen5'}[kind]
-        inp = dict(kind='edge_graph', which=kind, key=key)
-        chk.l3(('edge', kind))
-        check_pair(chk, dadi, key, 'fixed history `%s` (samples %s) vs its hand-written program' % (kind, samples), inp,
-                   lambda: demes_sfs(dadi, gd, sd, st, ns, pts), lambda: prog_sfs(dadi, ops, ns, pts), cost=0.2)
+        ndim = max(len(o['nu']) for o in ops if o['op'] == 'integrate')
+        out.append(dict(kind='graph', key=key, which=kind, graph=gd, samples=samples, ops=ops, ns=[3] * len(samples),
+                        pts=(10 if kind != 'five-demes-frozen' else 6), ndim=ndim, cost=0.05))
     for kind, ops in EDGE_EXPORT.items():
         d = max(len(o['nu']) for o in ops if o['op'] == 'integrate')
-        ns = [2] * d; pts = {2: 12, 3: 10, 4: 7, 5: 6}[d]
-        key = 'export:' + kind if kind != 'root-size' else 'export'
-        inp = dict(kind='edge_export', which=kind, key=key)
-        chk.l3(('edge-export', kind))
-        run_export_case(chk, dadi, key, inp, ops, ns, pts, 1000.0, 25.0, cost=0.2)
+        key = 'export' + ''.join(':' + x for x in export_features(ops))
+        out.append(dict(kind='export', key=key, which=kind, ops=ops, ns=[2] * d, pts={2: 12, 3: 10, 4: 7, 5: 6}[d], Nref=1000.0, generation_time=25.0, cost=0.05))
+    return out
+
+def l3_edges(chk, ctx):
+    dadi = ctx['dadi']
+    for inp in edge_cases():
+        chk.l3(('edge', inp['which']))
+        eval_case(chk, dadi, enc(inp))
     # the public wrapper (extrapolation over three grids) is the extrapolation of SFS
     gd, samples, ops = edge_graph('slice-exponential')
     g = resolve(gd)
@@ -818,7 +856,7 @@ def l3_edges(chk, ctx):
         a = dadi.Spectrum.from_demes(g, ['A', 'B'], [3, 3], [10, 12, 14])
         f = dadi.Numerics.make_extrap_func(dadi.Demes.SFS)
         b = f(g, ['A', 'B'], [3, 3], [10, 12, 14])
-        if rel(np.asarray(a.data), np.asarray(b.data)) > 1e-12 or list(a.pop_ids) != ['A', 'B']:
+        if rel(np.ma.filled(a, 0.0), np.ma.filled(b, 0.0)) > 1e-12 or list(a.pop_ids) != ['A', 'B']:
             chk.fail('from_demes:wrapper', 'Spectrum.from_demes differs from the extrapolated Demes.SFS', dict(kind='from_demes'))
     except Exception as e:
         chk.fail('from_demes:raises:' + type(e).__name__, 'Spectrum.from_demes raises %r' % (e,), dict(kind='from_demes'))
@@ -827,19 +865,20 @@ def l3_edges(chk, ctx):
 def run(chk, ctx):
     rng = common.Rng(ctx['seed'], 'C16')
     quick = ctx['tier'] != 'thorough'
-    dadi = ctx['dadi']
+    REFINE_BUDGET[0] = 20.0 if quick else 120.0
     chk.rule = ('K: random histories (1-5 contemporaneous demes; splits, branches, admixtures, mergers, pulses, removals, renamings; constant/'
                 'exponential/linear epochs spanning several intervals; asymmetric and symmetric migrations) -> every interval, deme and rate of '
                 '_get_integration_parameters/_sizes_at_time/_make_nu_func vs the generated formulas; recording stubs with marker values for every branch of '
                 '_integrate_phi/_split_phi/_admix_*; every primitive\'s real Demes.cache records vs the generated path table; output()\'s end times and scalings. '
                 'L3: each history is written twice (demes graph / hand-written dadi program) by harness/c16_scen.py; families graph, ancient (frozen branches, '
                 'only-ancient = sliced graph), scale/units/order/Ne relations, export+re-import of random programs (1-5 populations) and fixed edge cases; '
-                'distinct = different event sequence / axes / size functions / relation parameters; spectra disagreeing beyond 1e-9 are recomputed at 1/4 and '
-                '1/16 of the time step and must converge.')
+                'distinct = different event sequence / axes / size functions / relation parameters; spectra disagreeing beyond 1e-9 (corners excluded) are '
+                'recomputed at 1/4 and 1/16 of the time step and on a grid twice as fine and must converge.')
     chk.unproved = ['the numerical spectrum itself (integration, from_phi): equality of graph and program spectra is validated, not proved',
                     'the demes library (graph resolution, in_generations, discrete_demographic_events) and DemesUtil.slice are not modelled; ancient samples vs frozen branches is L3 only',
                     'exp/log/power in size functions are uninterpreted in the theorems; the harness evaluates the model terms with numpy',
-                    'round trip through Demes.output is validated numerically; only the record table, end times and unit scalings are proved']
+                    'round trip through Demes.output is validated numerically; only the record table, end times and unit scalings are proved',
+                    'DemesUtil.swipe is not covered (its result has several roots, which from_demes rejects)']
     chk.assumptions += ['tools/gen_Demes.py (statement-level translator of the conversion layer; shape checks raise TranslateError)',
                         'C06 wiring table Generated/Admix.lean (destination axis / source axes / coefficients of every PhiManip pulse and constructor)']
     def timed(name, f, *a):
@@ -856,54 +895,10 @@ def run(chk, ctx):
     timed('L3 export', l3_export, chk, ctx, rng, 30 if quick else 400, 1.0 if quick else 4.0)
 
 def replay(chk, ctx, data):
-    dadi = ctx['dadi']
-    inp = dec(data['input'])
-    kind = inp.get('kind')
-    key = inp.get('key', data.get('key', kind))
-    chk.l3(('replay', kind))
-    if kind == 'graph_vs_program':
-        gd = inp['graph']; samples = [tuple(s) for s in inp['samples']]
-        sd = [x for x, _ in samples]; st = [t for _, t in samples]
-        check_pair(chk, dadi, key, 'replayed history vs program', data['input'], lambda: demes_sfs(dadi, gd, sd, st, inp['ns'], inp['pts']),
-                   lambda: prog_sfs(dadi, inp['ops'], inp['ns'], inp['pts']), cost=0.0)
-    elif kind in ('scale', 'units', 'order', 'Ne'):
-        h = _Replayed(inp)
-        gd = inp['graph']; samples = [tuple(s) for s in inp['samples']]
-        sd = [x for x, _ in samples]; st = [t for _, t in samples]; ns = inp['ns']; pts = inp['pts']
-        basef = lambda: demes_sfs(dadi, gd, sd, st, ns, pts)
-        if kind == 'scale':
-            c = inp['c']; g2 = scale_graph(gd, c, 1.0)
-            check_pair(chk, dadi, 'scale', 'replay', data['input'], lambda: demes_sfs(dadi, g2, sd, [t * c for t in st], ns, pts), basef)
-        elif kind == 'units':
-            gt = inp['generation_time']; g3 = scale_graph(gd, 1.0, gt); g3['time_units'] = inp['unit']; g3['generation_time'] = gt
-            check_pair(chk, dadi, 'units', 'replay', data['input'], lambda: demes_sfs(dadi, g3, sd, [t * gt for t in st], ns, pts), basef)
-        elif kind == 'order':
-            perm = inp['perm']
-            check_pair(chk, dadi, 'order', 'replay', data['input'], lambda: demes_sfs(dadi, gd, [sd[i] for i in perm], [st[i] for i in perm], [ns[i] for i in perm], pts),
-                       lambda: np.transpose(basef(), perm))
-        else:
-            f = inp['factor']
-            check_pair(chk, dadi, 'Ne:root-size', 'replay', data['input'], lambda: demes_sfs(dadi, gd, sd, st, ns, pts, Ne=inp['Ne'] * f, theta=f), basef)
-    elif kind == 'export':
-        run_export_case(chk, dadi, key, data['input'], inp['ops'], inp['ns'], inp['pts'], inp['Nref'], inp['generation_time'], 0.0)
-    elif kind in ('edge_graph', 'edge_export', 'from_demes'):
+    REFINE_BUDGET[0] = 600.0
+    inp = data['input']
+    chk.l3(('replay', inp.get('kind')))
+    if inp.get('kind') == 'from_demes':
         l3_edges(chk, ctx)
     else:
-        raise common.Infra('unknown replay kind %r' % kind)
-
-class _Replayed:
-    def __init__(self, inp): self.inp = inp
-
-def scale_graph(gd, c, tmul):
-    """the transformation of History.graph_dict(scale=c, tmul=tmul) applied to a stored graph dict"""
-    g = copy.deepcopy(gd)
-    def T(t): return t if t == INF else t * c * tmul
-    for d in g['demes']:
-        if 'start_time' in d: d['start_time'] = T(d['start_time'])
-        for e in d['epochs']:
-            e['end_time'] = T(e['end_time']); e['start_size'] *= c; e['end_size'] *= c
-    for m in g.get('migrations', []):
-        m['rate'] /= c; m['start_time'] = T(m['start_time']); m['end_time'] = T(m['end_time'])
-    for p in g.get('pulses', []):
-        p['time'] = T(p['time'])
-    return g
+        eval_case(chk, ctx['dadi'], inp)
